@@ -176,7 +176,7 @@ impl Request {
 }
 
 #[verifier::rlimit(60)]
-//@fn src/request.rs new_request ret res props C01,C03,C09,C11,C13,C14,C15,C16,C18
+//@fn src/request.rs new_request ret res props C01,C02,C03,C09,C11,C13,C14,C15,C16,C18
 //@spec
     ensures
         // C10/C18: an Expect value other than 100-continue (any letter case) is refused, nothing else is
@@ -205,7 +205,7 @@ impl Request {
         // `rq.writer_chan() == writer.wchan()` that U-CONN uses by contract)
         res is Ok ==> !res->Ok_0.answered() && res->Ok_0.writer_id() == wid(writer),   // [C06,C01]
         // frame: everything else is handed over untouched
-        res is Ok ==> res->Ok_0.hdrs() == headers@ && res->Ok_0.head_is(secure, method, path, version, remote_addr),   // [C03,C10,C12]
+        res is Ok ==> res->Ok_0.hdrs() == headers@ && res->Ok_0.head_is(secure, method, path, version, remote_addr),   // [C02,C03,C10,C12]
 //@after 1 let transfer_encoding
     proof {   // [C03,C09,C11,C13]
         let name = "Transfer-Encoding"@;
